@@ -20,6 +20,7 @@ DECIDED = [
     "the port whenever the server is not serving; the worker hands its server to the runner",
     "R-C20-ISOLATED (closes): every normal exit of data_received - including exits through its own exception handlers - passes transport.close()",
     "R-C20-PAIR (bounded stop): stop() of the health check server is awaited under a timeout (Server.wait_closed waits for open connections)",
+    "R-C20-STATUS-OWN (round 5): RabbitMQ consumer start() raises when basic_consume is not confirmed (a consumer that is not consuming never looks healthy)",
 ]
 NOT_DECIDED = ["the parser on arbitrary bytes as such (exceptions there are contained by the asyncio transport - trusted)", "fragmented valid requests"]
 ASSUMPTIONS = ["asyncio's selector transport catches exceptions raised by Protocol.data_received and closes only that connection"]
@@ -30,6 +31,9 @@ PROTO = "repid.health_check_server._HttpServerProtocol"
 
 def run(ctx: Ctx) -> None:
     status_own(ctx)
+    from .brokers import rabbit_start_fails_loudly
+
+    rabbit_start_fails_loudly(ctx, "R-C20-STATUS-OWN")
     isolated(ctx)
     closes(ctx)
     fresh(ctx)
